@@ -3,6 +3,7 @@ from __future__ import annotations
 
 from vlib import lib, diff
 from vlib.gen import queries as Q
+from vlib.gen import values as V
 from vlib.hyp import drive, rng
 from vlib.ref import evaluate as ev
 
@@ -58,6 +59,7 @@ def run_shard(spec, shard):
             g = Q.QGen(r, names=list(dict.fromkeys(dn))[:8] + NAMES[:2], strings=list(dict.fromkeys(ds))[:6] + ["a", ""],
                        numbers=dnum[:8], max_filter_depth=3 if tier == "thorough" else 2)
             g.doc = doc
+            g.cheap_filters = V.count_nodes(doc) > 120     # cost bound: no quadratic embedded queries over wide values
             g.evalr = ev.Evaluator()
             base = [s for s in ast[2] if "filter" not in Q.features(["q", "$", [s]])][:2]
             seg = diff.guided_filter_segment(r, g, base, doc)
